@@ -820,6 +820,10 @@ func main() {
 
 	// ---------------- Enumeration B ----------------
 	covB := enumB(thorough, samples)
+	covSD := enumSeqDistance(thorough)
+	covB["sequence_distance_family"] = covSD
+	covB["orders"] = covB["orders"].(int64) + covSD["arrival_orders_run"].(int64)
+	covB["classes_run"] = covB["classes_run"].(int64) + covSD["message_sets"].(int64)
 
 	flushVios(rep)
 	exhaustive := completeA && covB["complete"] == true && !devOverride
